@@ -13,6 +13,15 @@ use crate::{msgcode, msgtext};
 
 pub(crate) fn check_unused_variables(items: &[ToplevelItem]) -> Vec<Diagnostic> {
     let mut visitor = UnusedVariableVisitor::new();
+
+    // An import applies to the whole file, so its namespace can be
+    // used by items that occur before the `import` itself.
+    for item in items {
+        if let ToplevelItem::Import(import_info) = item {
+            visitor.visit_import_info(import_info);
+        }
+    }
+
     for item in items {
         visitor.visit_toplevel_item(item);
     }
@@ -453,13 +462,15 @@ impl Visitor for UnusedVariableVisitor {
             return;
         }
 
-        self.file_bindings.insert(
-            namespace_sym.name.clone(),
-            ImportUseState::NotUsed {
+        // We see every import twice: once before looking at any
+        // other item, and once in file order. Don't forget the uses
+        // we've found in between.
+        self.file_bindings
+            .entry(namespace_sym.name.clone())
+            .or_insert(ImportUseState::NotUsed {
                 symbol_position: namespace_sym.position.clone(),
                 import_position: import_info.pos.clone(),
-            },
-        );
+            });
     }
 
     fn visit_method_info(&mut self, method_info: &MethodInfo) {
